@@ -138,16 +138,27 @@ func checkLedger(own, tier string) int {
 	if nh > 0 {
 		crowded = tierN(tier, 1, 6)
 	}
-	parallel(nh+drained+plain+crowded, 8, func(i int) {
+	// ... and (C02) histories whose reward schedule is over from the first block, with a rewards pool that holds
+	// less than one block of the burn-out rate, and delegations
+	burnt := 0
+	if nh > 0 && own == "C02" {
+		burnt = tierN(tier, 1, 4)
+	}
+	parallel(nh+drained+plain+crowded+burnt, 8, func(i int) {
 		hseed := seed*1000 + int64(i)
 		fr := int64(1)
 		if i%3 == 1 && i < nh {
 			fr = 0
 		}
 		params := world.Params{Frankenstein: fr, NumCandidates: 3, NumEthUsers: 3, TopValidators: 5, ChainID: fmt.Sprintf("OneLedger-%s-%d", strings.ToLower(own), hseed)}
-		if i >= nh+drained+plain {
+		if i >= nh+drained+plain && i < nh+drained+plain+crowded {
 			// (no fork block: it would force a top count of 64)
 			params.TopValidators, params.Frankenstein = 2, 0
+		}
+		if i >= nh+drained+plain+crowded {
+			params.YearShares = []string{"1000000000000000000000"}
+			params.YearCloseWindow = 3600 * 24 * 400
+			params.RewardPoolOLT = "3000000000000000000"
 		}
 		w0, _ := world.New(params)
 		lm := newLedgerMonitor(r, own, w0, hseed)
@@ -161,9 +172,13 @@ func checkLedger(own, tier string) int {
 			cfg.Scripts = []string{"olvm-mixed"}
 			cfg.Stray, cfg.Jumps, cfg.Absents = true, false, false
 		}
-		if i >= nh+drained+plain {
+		if i >= nh+drained+plain && i < nh+drained+plain+crowded {
 			cfg.Scripts = []string{"governance", "staking", "transfers"}
 			cfg.Jumps, cfg.Absents = false, false
+		}
+		if i >= nh+drained+plain+crowded {
+			cfg.Scripts = []string{"delegation", "transfers", "valrewards"}
+			cfg.Absents = false
 		}
 		cfg.OnBlock = func(run *hist.Runner, blk *hist.Block) bool {
 			changed := len(blk.Txs) > 0
